@@ -278,7 +278,17 @@ func (c *client) SendBatch(ctx context.Context, batch []hrpc.Call) (
 	backoff := backoffStart
 
 	for {
-		rpcByClient, ok := c.findClients(ctx, batch, res)
+		// findClients reports an error at the position of the call in the
+		// batch it is given. In a retry round that batch is a re-ordered
+		// subset of the original one, so map the positions back through
+		// rpcToRes instead of letting it write into res directly.
+		roundRes := make([]hrpc.RPCResult, len(batch))
+		rpcByClient, ok := c.findClients(ctx, batch, roundRes)
+		for i, r := range roundRes {
+			if r.Error != nil {
+				res[rpcToRes[batch[i]]] = r
+			}
+		}
 		if !ok {
 			return res, false
 		}
